@@ -45,6 +45,8 @@ func queueScenarios(prop string, thorough bool) []Scenario {
 	// Preemption: a Job event delivered between the counter read and the compare-and-add.
 	s = QueueScenario{Name: "enqueue3-max2-preempt1", MaxConcurrency: 2, Creates: []string{"Enqueue", "Enqueue", "Enqueue"}, MaxCreates: 3, Horizon: 600, Budget: mc.Budget{Lag: 1, Preempt: 1}}
 	add(s)
+	s = QueueScenario{Name: "enqueue3-max1-preempt1", MaxConcurrency: 1, Creates: []string{"Enqueue", "Enqueue", "Enqueue"}, MaxCreates: 3, Horizon: 600, Budget: mc.Budget{Lag: 1, Preempt: 1}}
+	add(s)
 	s = QueueScenario{Name: "forbid-allow-max1-preempt1", MaxConcurrency: 1, Creates: []string{"Forbid", "Allow", "Enqueue"}, MaxCreates: 3, Horizon: 600, Budget: mc.Budget{Lag: 1, Preempt: 1}}
 	add(s)
 	// Listener lag: the store hears about a finished Job later than the queue controller syncs;
